@@ -61,6 +61,8 @@ func init() {
 		n = 16
 	}
 	reg(&spec{ID: "C08", Pkg: "./harness/c08", Level: "model_checking", ShardsQ: n, ShardsT: n, DeadQ: 150, DeadT: 1500})
+	reg(&spec{ID: "C03", Pkg: "./harness/c03", Level: "exploration", ShardsQ: n, ShardsT: n, DeadQ: 150, DeadT: 1500})
+	reg(&spec{ID: "C12", Pkg: "./harness/c12", Level: "exploration", ShardsQ: n, ShardsT: n, DeadQ: 150, DeadT: 1500})
 	reg(&spec{ID: "C16", Pkg: "./harness/c16", Level: "exploration", ShardsQ: n, ShardsT: n, DeadQ: 150, DeadT: 1500})
 }
 
